@@ -110,6 +110,30 @@ def run(ctx):
             ctx.fail("operator did not return within 60 s", desc8, sig=sig8)
         except Exception as ex:
             ctx.fail("operator raised on transversal operands", desc8, got=repr(ex), sig=sig8)
+    # ---- deterministic: an operand whose OWN curves touch (a vertex of a hole lies exactly on the outer boundary of the same ConnectedShape), finding K10
+    from harness.props.c04 import rebuild as _rebuild
+    K10A = ("C", [[("-45/4", "2"), ("-25/2", "7/4"), ("-51/4", "3/2"), ("-63/4", "13/4"), ("-14", "11/2"), ("-51/4", "6"), ("-12", "21/4")],
+                  [("14", "11/4"), ("23/2", "3/4"), ("19/2", "3/4"), ("31/4", "9/4"), ("7", "19/4"), ("31/4", "9/2"), ("25/2", "17/4"), ("51/4", "15/4")]])
+    K10B = ("C", [[("7/2", "8"), ("5/2", "11/2"), ("1", "8"), ("-5/2", "13/2"), ("-7/2", "1"), ("-9/4", "-1"), ("-5/2", "-9/2"), ("4", "-9/2"), ("23/4", "-15/4")],
+                  [("15/8", "3/4"), ("1", "5/4"), ("7/4", "7/4")],
+                  [("5", "1/6"), ("19/4", "-5/24"), ("35/8", "7/24"), ("17/4", "1/6"), ("4", "17/12"), ("35/8", "37/24")]])
+    conv10 = lambda d: ("C", [[(F_(x), F_(y)) for x, y in vs] for vs in d[1]])
+    dA10, dB10 = conv10(K10A), conv10(K10B)
+    sig10 = {"family": "self-touching-operand", "own_curves_touch": gen.contacts(dB10[1]), "operands_touch": gen.contacts([dA10[1][0], dA10[1][1]] + dB10[1][:1])}
+    from harness import shapes as shp10
+    for opn in ("or", "and", "sub", "xor"):
+        A10, B10 = _rebuild(dA10), _rebuild(dB10)
+        desc10 = {"A": core.jsonable(K10A), "B": core.jsonable(K10B), "op": opn}
+        ctx.case("self-touching-operand", ("K10", opn))
+        try:
+            with impl.time_limit(60):
+                R10 = impl.OPS[opn](A10, B10)
+            ans10 = drv.ask(f"regioncheck {opn} {shp10.enc_desc(dA10)} {shp10.enc_desc(dB10)} {core.eshape(R10)}")
+            ctx.check(ans10 == "ok", "result region differs from the pointwise meaning", {**desc10, "witness": ans10}, sig=sig10)
+        except impl.Timeout:
+            ctx.fail("operator did not return within 60 s", desc10, sig=sig10)
+        except Exception as ex:
+            ctx.fail("operator raised on transversal operands", desc10, got=repr(ex), sig=sig10)
     n = 40 if ctx.quick else 600
     for it in range(n):
         k = rng.choice([2, 2, 2, 3, 3, 4, 5])
